@@ -421,12 +421,12 @@ pub fn list<const LEN: usize, S: Src>(s: &mut S) -> R {
 static mut MSG: [u8; 3] = [0; 3];
 static mut EXT: [u8; 2] = [0; 2];
 
-/// error-queue items: `code,"message"` / `code,"message;extended"`; KIND 0 = custom error with a
-/// symbolic 3-byte message, 1 = custom + symbolic 2-byte extended text, 2 = standard error by number
-pub fn error_item<const KIND: u8, S: Src>(s: &mut S) -> R {
+/// error-queue items `code,"message"` / `code,"message;extended"`: a custom error whose message has
+/// ML (<= 3) and whose extended text has XL (<= 2) symbolic printable bytes; XL = 0: no extended text
+pub fn error_item<const ML: usize, const XL: usize, S: Src>(s: &mut S) -> R {
     let c = s.i16();
-    let m: [u8; 3] = crate::bytes::<3, S>(s);
-    let x: [u8; 2] = crate::bytes::<2, S>(s);
+    let m: [u8; ML] = crate::bytes::<ML, S>(s);
+    let x: [u8; XL] = crate::bytes::<XL, S>(s);
     let printable = |b: &[u8]| {
         let mut ok = true;
         let mut i = 0;
@@ -438,17 +438,26 @@ pub fn error_item<const KIND: u8, S: Src>(s: &mut S) -> R {
     };
     assume!(s, printable(&m) && printable(&x));
     let (msg, ext): (&'static [u8], &'static [u8]) = unsafe {
-        MSG = m;
-        EXT = x;
-        (&*core::ptr::addr_of!(MSG), &*core::ptr::addr_of!(EXT))
+        let mut i = 0;
+        while i < ML {
+            MSG[i] = m[i];
+            i += 1;
+        }
+        let mut i = 0;
+        while i < XL {
+            EXT[i] = x[i];
+            i += 1;
+        }
+        {
+            let mr: &'static [u8; 3] = &*core::ptr::addr_of!(MSG);
+            let xr: &'static [u8; 2] = &*core::ptr::addr_of!(EXT);
+            (&mr[..ML], &xr[..XL])
+        }
     };
-    let e = match KIND {
-        0 => Error::custom(c, msg),
-        _ => Error::custom(c, msg).extended(ext),
-    };
+    let e = if XL == 0 { Error::custom(c, msg) } else { Error::custom(c, msg).extended(ext) };
     let mut out = SBuf::new();
     let r = e.format_response_data(&mut out);
-    crate::note!("C09 error_item<{}>: {:?} -> {:?} ({:?})", KIND, e, crate::checks::show(&out), r);
+    crate::note!("C09 error_item<{},{}>: {:?} -> {:?} ({:?})", ML, XL, e, crate::checks::show(&out), r);
     witness!(c < -99, "error_item: negative three-digit code");
     ob!(r.is_ok(), "C09: formatting an error item failed");
     // code , string
@@ -460,15 +469,21 @@ pub fn error_item<const KIND: u8, S: Src>(s: &mut S) -> R {
     ob!(decode_dec(&out[..comma]) == Some(e.get_code() as i128), "C09: error item does not start with its code");
     // expected text: message, or message;extended
     let mut want = [0u8; 6];
-    want[..3].copy_from_slice(&m);
-    let wl = if KIND == 1 {
-        want[3] = b';';
-        want[4] = x[0];
-        want[5] = x[1];
-        6
-    } else {
-        3
-    };
+    let mut wl = 0;
+    while wl < ML {
+        want[wl] = m[wl];
+        wl += 1;
+    }
+    if XL > 0 {
+        want[wl] = b';';
+        wl += 1;
+        let mut i = 0;
+        while i < XL {
+            want[wl] = x[i];
+            wl += 1;
+            i += 1;
+        }
+    }
     ob!(string_decodes_to(&out[comma + 1..], &want[..wl]),
         "C09: error item text is not a well-formed quoted string denoting message[;extended] (embedded quotes must be doubled)");
     Ok(())
